@@ -75,13 +75,15 @@ structure RunRes where
   sets : List (Path × Val)
 deriving DecidableEq
 
-/-- exactly what is fed to the hasher (hash_target.go) -/
+/-- exactly what is fed to the hasher (hash_target.go). `deps`: the output hash of every direct dependency **together
+    with the dependency's label** (`hashTargetDefinition` writes label / output-hash pairs): an output hash by itself
+    covers package-relative output identifiers only, so it does not say which dependency it belongs to. -/
 structure KeyState (κ : Type) where
   label : Lbl
   cmd : Cmd
   inputs : List (Path × Option Val)
   outs : List OutDef
-  deps : List (OH κ)
+  deps : List (Lbl × OH κ)
   fp : List (Bytes × Bytes)
   plat : Bytes
 deriving DecidableEq
@@ -187,7 +189,7 @@ def depOhs (st : Lbl → Option (TStat κ)) : List Lbl → Option (List (OH κ))
 
 def keyState (t : Target) (fs : FS) (ohs : List (OH κ)) : KeyState κ :=
   { label := t.label, cmd := t.cmd, inputs := t.inputs.map (fun p => (p, fs p)),
-    outs := t.outs, deps := ohs, fp := t.fp, plat := t.plat }
+    outs := t.outs, deps := t.hdeps.zip ohs, fp := t.fp, plat := t.plat }
 
 def outPathsOf (defs : Defs) (d : Lbl) : List Path :=
   match defs d with
@@ -206,7 +208,7 @@ def ohVals : OH κ → List (Path × Option Val)
 
 /-- the view a key-state encodes -/
 def viewOf (ks : KeyState κ) : View :=
-  { inputs := ks.inputs, deps := ks.deps.flatMap ohVals }
+  { inputs := ks.inputs, deps := ks.deps.flatMap (fun d => ohVals d.2) }
 
 def writeOuts (fs : FS) : Outs → FS
   | [] => fs
